@@ -33,6 +33,8 @@ def run(tier):
                     raise MachineryError(f"vacuous model check: action {act} never taken")
     # (2) real executions
     kauri.run_traces(rep, "C09", tier, rnd, budget=14 if tier == "quick" else 60)
+    # spec -> code: the fit loop (explorable leaves, tree table, leaves_, routing) under an arbitrary scripted search
+    kauri.run_glue(rep, "C09", tier, random.Random(SEED + 19))
     rep.assumptions = ["integer datasets and integer kernels (linear on integer data, precomputed symmetric indefinite matrix) so "
                        "that every logged gain is an exact multiple of 1/lcm(1..n); the recorder wraps the module attribute "
                        "gemclus.tree.kauri.find_best_split (no source hook)",
